@@ -76,7 +76,23 @@ Inductive lexp :=
 | LIndex (e : lexp) (w1 : bool) (i : lexp) (w2 : bool)                                  (* e "[" w1 i "]" w2 *)
 | LSlice (e : lexp) (w1 : bool) (s : option lexp) (w2 : bool) (t : option lexp) (w3 : bool)  (* e "[" w1 [s] ":" w2 [t] "]" w3 *)
 | LDot (e : lexp) (key : str) (w : bool)                                                (* e "." key w *)
-| LAssert (e : lexp) (w1 : bool) (t : ty) (w2 w3 : bool).                               (* e "." "(" w1 type w2 ")" w3 *)
+| LAssert (e : lexp) (w1 : bool) (t : ty) (w2 w3 : bool)                                (* e "." "(" w1 type w2 ")" w3 *)
+(* "(" w1 f WS a1 WS ... WS an wl ")" w2 : a call in parentheses; every argument is preceded by
+   whitespace, the last one may be followed by whitespace (wl); the arguments are rendered tight *)
+| LCall (w1 : bool) (f : str) (args : list lexp) (wl w2 : bool)
+(* "[" w1 e1 WS ... WS en wl "]" w2 : an array literal (elements on one line, separated by whitespace, rendered tight) *)
+| LArr (w1 : bool) (elems : list lexp) (wl w2 : bool)
+(* "{" w1 k1 ":" c1 v1 WS ... WS kn ":" cn vn wl "}" w2 : a map literal on one line; a pair is
+   (key, whitespace after the colon, value); values are rendered tight *)
+| LMap (w1 : bool) (pairs : list (str * bool * lexp)) (wl w2 : bool).
+
+(* generic helpers for the argument / element lists nested in lexp *)
+Definition allP {A} (P : A -> Prop) : list A -> Prop :=
+  fix go (l : list A) : Prop := match l with [] => True | a :: t => P a /\ go t end.
+Definition max_over {A} (f : A -> nat) : list A -> nat :=
+  fix go (l : list A) : nat := match l with [] => 0 | a :: t => Nat.max (f a) (go t) end.
+(* is the token before the remaining arguments t followed by whitespace *)
+Definition seq_flag {A} (t : list A) (wl : bool) : bool := match t with [] => wl | _ => true end.
 
 (* induction principle that reaches the optional slice bounds *)
 Section LexpInd.
@@ -90,6 +106,9 @@ Section LexpInd.
   Hypothesis H_slice : forall e w1 s w2 t w3, P e -> optP s -> optP t -> P (LSlice e w1 s w2 t w3).
   Hypothesis H_dot : forall e k w, P e -> P (LDot e k w).
   Hypothesis H_assert : forall e w1 t w2 w3, P e -> P (LAssert e w1 t w2 w3).
+  Hypothesis H_call : forall w1 f args wl w2, Forall P args -> P (LCall w1 f args wl w2).
+  Hypothesis H_arr : forall w1 elems wl w2, Forall P elems -> P (LArr w1 elems wl w2).
+  Hypothesis H_map : forall w1 pairs wl w2, Forall (fun p => P (snd p)) pairs -> P (LMap w1 pairs wl w2).
   Fixpoint lexp_ind' (l : lexp) : P l :=
     match l with
     | LAtom a ws => H_atom a ws
@@ -103,6 +122,21 @@ Section LexpInd.
           (match t return optP t with Some x => lexp_ind' x | None => I end)
     | LDot e k w => H_dot e k w (lexp_ind' e)
     | LAssert e w1 t w2 w3 => H_assert e w1 t w2 w3 (lexp_ind' e)
+    | LCall w1 f args wl w2 =>
+        H_call w1 f args wl w2
+          ((fix go (l : list lexp) : Forall P l :=
+              match l with [] => Forall_nil P | a :: t => Forall_cons a (lexp_ind' a) (go t) end) args)
+    | LArr w1 elems wl w2 =>
+        H_arr w1 elems wl w2
+          ((fix go (l : list lexp) : Forall P l :=
+              match l with [] => Forall_nil P | a :: t => Forall_cons a (lexp_ind' a) (go t) end) elems)
+    | LMap w1 pairs wl w2 =>
+        H_map w1 pairs wl w2
+          ((fix go (l : list (str * bool * lexp)) : Forall (fun p => P (snd p)) l :=
+              match l with
+              | [] => Forall_nil _
+              | p :: t => Forall_cons (P := fun p => P (snd p)) p (match p with (_, v) => lexp_ind' v end) (go t)
+              end) pairs)
     end.
 End LexpInd.
 
@@ -121,7 +155,10 @@ Definition toprank (l : lexp) : nat :=
      E_prim  ::= atom | "(" E_0 ")"                   (Lay_atom, Lay_group)
                | E_prim "[" E_0 "]"                   (Lay_index)
                | E_prim "[" [E_0] ":" [E_0] "]"       (Lay_slice)
-               | E_prim "." ident | E_prim ".(" type ")"   (Lay_dot, Lay_assert) *)
+               | E_prim "." ident | E_prim ".(" type ")"   (Lay_dot, Lay_assert)
+               | "(" fname E_0 ... E_0 ")"                (Lay_call; arguments separated by whitespace)
+               | "[" E_0 ... E_0 "]"                      (Lay_arr; elements separated by whitespace)
+               | "{" ident ":" E_0 ... ident ":" E_0 "}"  (Lay_map; pairs separated by whitespace) *)
 Inductive Lay : nat -> lexp -> Prop :=
 | Lay_up n l : Lay (S n) l -> Lay n l
 | Lay_bin o l ws r : Lay (rank o) l -> Lay (S (rank o)) r -> Lay (rank o) (LBin o l ws r)
@@ -133,7 +170,10 @@ Inductive Lay : nat -> lexp -> Prop :=
     Lay rank_primary e -> (forall x, s = Some x -> Lay 0 x) -> (forall x, t = Some x -> Lay 0 x) ->
     Lay rank_primary (LSlice e w1 s w2 t w3)
 | Lay_dot e k w : Lay rank_primary e -> Lay rank_primary (LDot e k w)
-| Lay_assert e w1 t w2 w3 : Lay rank_primary e -> Lay rank_primary (LAssert e w1 t w2 w3).
+| Lay_assert e w1 t w2 w3 : Lay rank_primary e -> Lay rank_primary (LAssert e w1 t w2 w3)
+| Lay_call w1 f args wl w2 : (forall a, In a args -> Lay 0 a) -> Lay rank_primary (LCall w1 f args wl w2)
+| Lay_arr w1 elems wl w2 : (forall a, In a elems -> Lay 0 a) -> Lay rank_primary (LArr w1 elems wl w2)
+| Lay_map w1 pairs wl w2 : (forall p, In p pairs -> Lay 0 (snd p)) -> Lay rank_primary (LMap w1 pairs wl w2).
 
 (* the tree the grammar prescribes *)
 Fixpoint tree_of (l : lexp) : tree :=
@@ -148,12 +188,16 @@ Fixpoint tree_of (l : lexp) : tree :=
                          (match t with Some x => Some (tree_of x) | None => None end)
   | LDot e k _ => TDot (tree_of e) k
   | LAssert e _ t _ _ => TAssert (tree_of e) (Some t)
+  | LCall _ f args _ _ => TGroup (TCall f (map tree_of args))     (* parseGroupedExpr wraps the call *)
+  | LArr _ elems _ _ => TArr (map tree_of elems)
+  | LMap _ pairs _ _ => TMap (map (fun p => match p with (k, _, v) => (k, tree_of v) end) pairs)
   end.
 
 (* derivations without layout *)
 Inductive sexp :=
 | SAtom (a : atom) | SGroup (e : sexp) | SUn (o : unop) (e : sexp) | SBin (o : binop) (l r : sexp)
-| SIndex (e i : sexp) | SSlice (e : sexp) (s t : option sexp) | SDot (e : sexp) (k : str) | SAssert (e : sexp) (t : ty).
+| SIndex (e i : sexp) | SSlice (e : sexp) (s t : option sexp) | SDot (e : sexp) (k : str) | SAssert (e : sexp) (t : ty)
+| SCall (f : str) (args : list sexp) | SArr (elems : list sexp) | SMap (pairs : list (str * sexp)).
 Fixpoint erase (l : lexp) : sexp :=
   match l with
   | LAtom a _ => SAtom a
@@ -166,6 +210,9 @@ Fixpoint erase (l : lexp) : sexp :=
                        (match t with Some x => Some (erase x) | None => None end)
   | LDot e k _ => SDot (erase e) k
   | LAssert e _ t _ _ => SAssert (erase e) t
+  | LCall _ f args _ _ => SCall f (map erase args)
+  | LArr _ elems _ _ => SArr (map erase elems)
+  | LMap _ pairs _ _ => SMap (map (fun p => match p with (k, _, v) => (k, erase v) end) pairs)
   end.
 Fixpoint stree (s : sexp) : tree :=
   match s with
@@ -179,6 +226,9 @@ Fixpoint stree (s : sexp) : tree :=
                        (match t with Some x => Some (stree x) | None => None end)
   | SDot e k => TDot (stree e) k
   | SAssert e t => TAssert (stree e) (Some t)
+  | SCall f args => TGroup (TCall f (map stree args))
+  | SArr elems => TArr (map stree elems)
+  | SMap pairs => TMap (map (fun p => match p with (k, v) => (k, stree v) end) pairs)
   end.
 
 (* token rendering; one WS token stands for any run of blanks (the lexer merges them) *)
@@ -190,6 +240,32 @@ Fixpoint render_ty (t : ty) : list token :=
   | TyMap s => mk T_LCURLY :: mk T_RCURLY :: render_ty s
   end.
 Definition ident_tok (k : str) : token := {| ttype := T_IDENT; tlit := k |}.
+(* a whitespace-separated sequence: each item is followed by whitespace, the last one by wl *)
+Definition render_seq (r : lexp -> list token) : list lexp -> bool -> list token :=
+  fix go (args : list lexp) (wl : bool) : list token :=
+    match args with [] => [] | a :: t => r a ++ wsl (seq_flag t wl) ++ go t wl end.
+Lemma render_seq_nil r wl : render_seq r [] wl = [].
+Proof. reflexivity. Qed.
+Lemma render_seq_cons r a t wl : render_seq r (a :: t) wl = r a ++ wsl (seq_flag t wl) ++ render_seq r t wl.
+Proof. reflexivity. Qed.
+Lemma max_over_cons {A} (f : A -> nat) a t : max_over f (a :: t) = Nat.max (f a) (max_over f t).
+Proof. reflexivity. Qed.
+Lemma allP_In {A} (P : A -> Prop) l : (forall a, In a l -> P a) -> allP P l.
+Proof. induction l as [|a t IH]; simpl; intro H; [exact I|]. split; [apply H; auto|apply IH; intros b Hb; apply H; auto]. Qed.
+Arguments render_seq r args wl : simpl never.
+(* the pairs of a map literal *)
+Definition render_pairs (r : lexp -> list token) : list (str * bool * lexp) -> bool -> list token :=
+  fix go (ps : list (str * bool * lexp)) (wl : bool) : list token :=
+    match ps with
+    | [] => []
+    | (k, wc, v) :: t => ident_tok k :: mk T_COLON :: wsl wc ++ r v ++ wsl (seq_flag t wl) ++ go t wl
+    end.
+Lemma render_pairs_nil r wl : render_pairs r [] wl = [].
+Proof. reflexivity. Qed.
+Lemma render_pairs_cons r k wc v t wl :
+  render_pairs r ((k, wc, v) :: t) wl = ident_tok k :: mk T_COLON :: wsl wc ++ r v ++ wsl (seq_flag t wl) ++ render_pairs r t wl.
+Proof. reflexivity. Qed.
+Arguments render_pairs r ps wl : simpl never.
 Fixpoint render (l : lexp) : list token :=
   match l with
   | LAtom a ws => atom_tok a :: wsl ws
@@ -202,6 +278,12 @@ Fixpoint render (l : lexp) : list token :=
       mk T_COLON :: wsl w2 ++ (match t with Some x => render x | None => [] end) ++ mk T_RBRACKET :: wsl w3
   | LDot e k w => render e ++ mk T_DOT :: ident_tok k :: wsl w
   | LAssert e w1 t w2 w3 => render e ++ mk T_DOT :: mk T_LPAREN :: wsl w1 ++ render_ty t ++ wsl w2 ++ mk T_RPAREN :: wsl w3
+  | LCall w1 f args wl w2 =>
+      mk T_LPAREN :: wsl w1 ++ ident_tok f :: wsl (seq_flag args wl) ++ render_seq render args wl ++ mk T_RPAREN :: wsl w2
+  | LArr w1 elems wl w2 =>
+      mk T_LBRACKET :: wsl w1 ++ render_seq render elems wl ++ mk T_RBRACKET :: wsl w2
+  | LMap w1 pairs wl w2 =>
+      mk T_LCURLY :: wsl w1 ++ render_pairs render pairs wl ++ mk T_RCURLY :: wsl w2
   end.
 
 (* is the last token of l followed by whitespace *)
@@ -215,6 +297,26 @@ Fixpoint last_ws (l : lexp) : bool :=
   | LSlice _ _ _ _ _ w3 => w3
   | LDot _ _ w => w
   | LAssert _ _ _ _ w3 => w3
+  | LCall _ _ _ _ w2 => w2
+  | LArr _ _ _ w2 => w2
+  | LMap _ _ _ w2 => w2
+  end.
+
+(* layouts legal in a whitespace-sensitive ("tight") context: no whitespace
+   outside parentheses / brackets (rules 4-9 of §Horizontal Whitespace) *)
+Fixpoint tight_ok (l : lexp) : bool :=
+  match l with
+  | LAtom _ ws => negb ws
+  | LGroup _ _ w2 => negb w2
+  | LUn _ e => tight_ok e
+  | LBin _ a ws b => negb ws && tight_ok a && tight_ok b
+  | LIndex e _ _ w2 => negb w2 && tight_ok e
+  | LSlice e _ _ _ _ w3 => negb w3 && tight_ok e
+  | LDot e _ w => negb w && tight_ok e
+  | LAssert e _ _ _ w3 => negb w3 && tight_ok e
+  | LCall _ _ _ _ w2 => negb w2
+  | LArr _ _ _ w2 => negb w2      (* whitespace just inside the brackets is legal everywhere *)
+  | LMap _ _ _ w2 => negb w2
   end.
 
 (* layouts legal in every context: no whitespace before "[" and around "." (rules 1, 2) *)
@@ -230,21 +332,11 @@ Fixpoint layout_ok (l : lexp) : bool :=
       (match t with Some x => layout_ok x | None => true end)
   | LDot e _ _ => negb (last_ws e) && layout_ok e
   | LAssert e _ _ _ _ => negb (last_ws e) && layout_ok e
+  | LCall _ _ args _ _ => forallb (fun a => layout_ok a && tight_ok a) args
+  | LArr _ elems _ _ => forallb (fun a => layout_ok a && tight_ok a) elems
+  | LMap _ pairs _ _ => forallb (fun p => layout_ok (snd p) && tight_ok (snd p)) pairs
   end.
 
-(* layouts legal in a whitespace-sensitive ("tight") context: no whitespace
-   outside parentheses / brackets (rules 4-9 of §Horizontal Whitespace) *)
-Fixpoint tight_ok (l : lexp) : bool :=
-  match l with
-  | LAtom _ ws => negb ws
-  | LGroup _ _ w2 => negb w2
-  | LUn _ e => tight_ok e
-  | LBin _ a ws b => negb ws && tight_ok a && tight_ok b
-  | LIndex e _ _ w2 => negb w2 && tight_ok e
-  | LSlice e _ _ _ _ w3 => negb w3 && tight_ok e
-  | LDot e _ w => negb w && tight_ok e
-  | LAssert e _ _ _ w3 => negb w3 && tight_ok e
-  end.
 
 (* the last token of l is the closing bracket of a slice (the site of the parseSlice defect) *)
 Fixpoint ends_with_slice (l : lexp) : bool :=
@@ -257,6 +349,29 @@ Fixpoint ends_with_slice (l : lexp) : bool :=
 
 (* side conditions on atoms: number literals are well formed, variables are
    declared, not "_", and not function names; asserted types are not "any" *)
+(* side conditions on an argument list: [ok] of every argument, and — as parseSlice is written
+   (e_fix_slice = false) — an argument ending in a slice is not followed by whitespace *)
+Definition args_ok (E : env) (ok : lexp -> Prop) (wl : bool) : list lexp -> Prop :=
+  fix go (l : list lexp) : Prop :=
+    match l with
+    | [] => True
+    | a :: t => (ok a /\ (e_fix_slice E = false -> ends_with_slice a = true -> seq_flag t wl = false)) /\ go t
+    end.
+
+Definition pairs_ok (E : env) (ok : lexp -> Prop) (wl : bool) : list (str * bool * lexp) -> Prop :=
+  fix go (l : list (str * bool * lexp)) : Prop :=
+    match l with
+    | [] => True
+    | p :: t => (ok (snd p) /\ (e_fix_slice E = false -> ends_with_slice (snd p) = true -> seq_flag t wl = false)) /\ go t
+    end.
+(* parseMapPairs rejects a key that occurred before *)
+Fixpoint keys_fresh (seen : list str) (ks : list str) : Prop :=
+  match ks with
+  | [] => True
+  | k :: t => existsb (fun k' => str_eqb k' k) seen = false /\ keys_fresh (k :: seen) t
+  end.
+Definition pair_key (p : str * bool * lexp) : str := fst (fst p).
+
 Fixpoint atoms_ok (E : env) (l : lexp) : Prop :=
   match l with
   | LAtom (ANum lit) _ => num_lit_ok lit = true
@@ -271,6 +386,12 @@ Fixpoint atoms_ok (E : env) (l : lexp) : Prop :=
       (match t with Some x => atoms_ok E x | None => True end)
   | LDot e _ _ => atoms_ok E e
   | LAssert e _ t _ _ => atoms_ok E e /\ t <> TyAny
+  | LCall _ f args wl _ =>
+      (* f is a function with parameters, called with the right number of arguments; as parseSlice is
+         written (e_fix_slice = false) an argument ending in a slice must not be followed by whitespace *)
+      func_of E f = Some false /\ arity_wrong E f (List.length args) = false /\ args_ok E (atoms_ok E) wl args
+  | LArr _ elems wl _ => args_ok E (atoms_ok E) wl elems
+  | LMap _ pairs wl _ => keys_fresh [] (map pair_key pairs) /\ pairs_ok E (atoms_ok E) wl pairs
   end.
 
 (* ================================================================ *)
@@ -351,6 +472,8 @@ Lemma rparen_lowest : precedences T_RPAREN = lowestPrec.
 Proof. reflexivity. Qed.
 Lemma rbracket_lowest : precedences T_RBRACKET = lowestPrec.
 Proof. reflexivity. Qed.
+Lemma rcurly_lowest : precedences T_RCURLY = lowestPrec.
+Proof. reflexivity. Qed.
 Lemma colon_lowest : precedences T_COLON = lowestPrec.
 Proof. reflexivity. Qed.
 Lemma dot_index : precedences T_DOT = precedences T_LBRACKET.
@@ -370,6 +493,31 @@ Definition consume_ty (t : ty) (st : pstate) : pstate := fold_left (fun s _ => a
 Definition atom_mark (a : atom) (st : pstate) : pstate :=
   match a with AVar n => mark_used n st | _ => st end.
 
+(* parseExprList: every argument is parsed by parseExprWSS, then advanceIfWS *)
+Definition consume_args (c : lexp -> pstate -> pstate) : list lexp -> pstate -> pstate :=
+  fix go (args : list lexp) (st : pstate) : pstate :=
+    match args with [] => st | a :: t => go t (advance_if_ws (pop_wss (c a (push_wss true st)))) end.
+Lemma consume_args_nil c st : consume_args c [] st = st.
+Proof. reflexivity. Qed.
+Lemma consume_args_cons c a t st :
+  consume_args c (a :: t) st = consume_args c t (advance_if_ws (pop_wss (c a (push_wss true st)))).
+Proof. reflexivity. Qed.
+Arguments consume_args c args st : simpl never.
+
+(* parseMapPairs: key with advance, ":" with advance, the value with parseExprWSS, parseMulitlineWS *)
+Definition consume_pairs (c : lexp -> pstate -> pstate) : list (str * bool * lexp) -> pstate -> pstate :=
+  fix go (ps : list (str * bool * lexp)) (st : pstate) : pstate :=
+    match ps with
+    | [] => st
+    | p :: t => go t (advance_if_ws (pop_wss (c (snd p) (push_wss true (advance (advance st))))))
+    end.
+Lemma consume_pairs_nil c st : consume_pairs c [] st = st.
+Proof. reflexivity. Qed.
+Lemma consume_pairs_cons c p t st :
+  consume_pairs c (p :: t) st = consume_pairs c t (advance_if_ws (pop_wss (c (snd p) (push_wss true (advance (advance st)))))).
+Proof. reflexivity. Qed.
+Arguments consume_pairs c ps st : simpl never.
+
 Fixpoint consume (E : env) (l : lexp) (st : pstate) : pstate :=
   match l with
   | LAtom a _ => atom_mark a (advance st)
@@ -386,6 +534,13 @@ Fixpoint consume (E : env) (l : lexp) (st : pstate) : pstate :=
   | LDot e _ _ => advance (advance (consume E e st))
   | LAssert e _ t _ _ =>
       pop_wss (advance_wss (consume_ty t (advance (advance (push_wss false (consume E e st))))))
+  | LCall _ _ args _ _ =>
+      pop_wss (advance_wss (consume_args (consume E) args (advance (advance (push_wss false st)))))
+  | LArr _ elems _ _ =>
+      (* "[" with advance, parseMulitlineWS, the elements (parseExprWSS + parseMulitlineWS each), "]" with advance *)
+      advance (consume_args (consume E) elems (advance_if_ws (advance st)))
+  | LMap _ pairs _ _ =>
+      pop_wss (advance_wss (consume_pairs (consume E) pairs (advance_if_ws (advance (push_wss false st)))))
   end.
 
 Fixpoint first_tok (l : lexp) : token :=
@@ -398,6 +553,9 @@ Fixpoint first_tok (l : lexp) : token :=
   | LSlice e _ _ _ _ _ => first_tok e
   | LDot e _ _ => first_tok e
   | LAssert e _ _ _ _ => first_tok e
+  | LCall _ _ _ _ _ => mk T_LPAREN
+  | LArr _ _ _ _ => mk T_LBRACKET
+  | LMap _ _ _ _ => mk T_LCURLY
   end.
 
 Lemma atom_tok_not_ws a : is_ws (atom_tok a) = false.
@@ -405,27 +563,31 @@ Proof. destruct a as [| |[]|]; reflexivity. Qed.
 
 Lemma render_first l : exists r, render l = first_tok l :: r.
 Proof.
-  induction l as [a ws|w1 e w2 IH|o e IH|o a ws b IHa IHb|e w1 i w2 IHe IHi|e w1 s w2 t w3 IHe IHs IHt|e k w IHe|e w1 t w2 w3 IHe]
+  induction l as [a ws|w1 e w2 IH|o e IH|o a ws b IHa IHb|e w1 i w2 IHe IHi|e w1 s w2 t w3 IHe IHs IHt|e k w IHe|e w1 t w2 w3 IHe|w1 f args wz w2 IHargs|w1 args wz w2 IHargs|w1 pairs wz w2 IHpairs]
     using lexp_ind'; simpl; eauto;
   destruct IHe as [r ->] || destruct IHa as [r ->]; simpl; eauto.
 Qed.
 
 (* the first token of an expression is one of the eight prefix tokens *)
 Definition prefix_tt (t : toktype) : Prop :=
-  t = T_NUM_LIT \/ t = T_STRING_LIT \/ t = T_TRUE \/ t = T_FALSE \/ t = T_IDENT \/ t = T_LPAREN \/ t = T_MINUS \/ t = T_BANG.
+  t = T_NUM_LIT \/ t = T_STRING_LIT \/ t = T_TRUE \/ t = T_FALSE \/ t = T_IDENT \/ t = T_LPAREN \/ t = T_MINUS \/ t = T_BANG \/
+  t = T_LBRACKET \/ t = T_LCURLY.
 
 Lemma first_tok_prefix l : prefix_tt (ttype (first_tok l)).
 Proof.
   unfold prefix_tt.
-  induction l as [a ws|w1 e w2 IH|o e IH|o a ws b IHa IHb|e w1 i w2 IHe IHi|e w1 s w2 t w3 IHe IHs IHt|e k w IHe|e w1 t w2 w3 IHe]
+  induction l as [a ws|w1 e w2 IH|o e IH|o a ws b IHa IHb|e w1 i w2 IHe IHi|e w1 s w2 t w3 IHe IHs IHt|e k w IHe|e w1 t w2 w3 IHe|w1 f args wz w2 IHargs|w1 args wz w2 IHargs|w1 pairs wz w2 IHpairs]
     using lexp_ind'; simpl; auto.
   - destruct a as [| |[]|]; simpl; tauto.
   - tauto.
   - destruct o; simpl; tauto.
+  - tauto.
+  - tauto.
+  - tauto.
 Qed.
 
 Lemma first_tok_not_ws l : is_ws (first_tok l) = false.
-Proof. unfold is_ws. destruct (first_tok_prefix l) as [H|[H|[H|[H|[H|[H|[H|H]]]]]]]; rewrite H; reflexivity. Qed.
+Proof. unfold is_ws. destruct (first_tok_prefix l) as [H|[H|[H|[H|[H|[H|[H|[H|[H|H]]]]]]]]]; rewrite H; reflexivity. Qed.
 
 Lemma render_head_not_ws l r : is_ws (look0 (render l ++ r)) = false.
 Proof. destruct (render_first l) as [x ->]. simpl. apply first_tok_not_ws. Qed.
@@ -488,7 +650,7 @@ Proof. rewrite <- app_assoc. reflexivity. Qed.
 
 Lemma tight_ok_last_ws l : tight_ok l = true -> last_ws l = false.
 Proof.
-  induction l as [a ws|w1 e w2 IH|o e IH|o a ws b IHa IHb|e w1 i w2 IHe IHi|e w1 s w2 t w3 IHe IHs IHt|e k w IHe|e w1 t w2 w3 IHe]
+  induction l as [a ws|w1 e w2 IH|o e IH|o a ws b IHa IHb|e w1 i w2 IHe IHi|e w1 s w2 t w3 IHe IHs IHt|e k w IHe|e w1 t w2 w3 IHe|w1 f args wz w2 IHargs|w1 args wz w2 IHargs|w1 pairs wz w2 IHpairs]
     using lexp_ind'; simpl; intro Ht; auto;
     repeat (apply andb_true_iff in Ht; destruct Ht as [Ht ?]); auto;
     match goal with |- ?b = false => destruct b; simpl in *; congruence end.
@@ -535,16 +697,145 @@ Proof. destruct t; reflexivity. Qed.
 
 Ltac norm_app H := repeat (rewrite <- app_assoc in H || rewrite <- app_comm_cons in H); simpl in H.
 
-Lemma consume_spec E : forall l st rest0,
+Definition consume_stmt (E : env) (l : lexp) : Prop := forall st rest0,
   rest st = render l ++ rest0 ->
   layout_ok l = true ->
   (is_wss st = true -> tight_ok l = true) ->
   (is_wss st = false -> is_ws (look0 rest0) = false) ->
   (e_fix_slice E = false -> ends_with_slice l = true -> is_ws (look0 rest0) = false) ->
+  atoms_ok E l ->      (* only for the slice guard on call arguments it contains *)
   after st (consume E l st) (last_ws l) rest0.
+
+Lemma render_seq_head_not_ws args wz r :
+  is_ws (look0 r) = false -> is_ws (look0 (render_seq render args wz ++ r)) = false.
 Proof.
-  induction l as [a ws|w1 e w2 IH|o e IH|o a ws b IHa IHb|e w1 i w2 IHe IHi|e w1 s w2 t w3 IHe IHs IHt|e k w IHe|e w1 t w2 w3 IHe]
-    using lexp_ind'; intros st rest0 Hr Hl Ht Hf Hg; unfold after; cbn [consume last_ws]; simpl in Hr, Hl.
+  intro H. destruct args as [|a t]; [rewrite render_seq_nil; exact H|].
+  rewrite render_seq_cons, <- app_assoc. apply render_head_not_ws.
+Qed.
+
+(* popWSS, then skipping one whitespace token if it is still there: in a free outer context popWSS
+   itself skips it, in a whitespace-sensitive one advanceIfWS / parseMulitlineWS does *)
+Lemma pop_then_skip s1 w rest1 b ws0 :
+  rest s1 = wsl w ++ rest1 -> wss s1 = b :: ws0 -> is_ws (look0 rest1) = false ->
+  rest (advance_if_ws (pop_wss s1)) = rest1 /\ wss (advance_if_ws (pop_wss s1)) = ws0 /\
+  errs (advance_if_ws (pop_wss s1)) = errs s1.
+Proof.
+  intros Hr Hw Hn. destruct (hd false ws0) eqn:W.
+  - assert (P : pop_wss s1 = {| prev := prev s1; rest := rest s1; peek := peek s1; wss := ws0; errs := errs s1; used := used s1 |}).
+    { unfold pop_wss, is_wss. simpl. rewrite Hw. simpl. rewrite W. reflexivity. }
+    rewrite P. unfold advance_if_ws, cur. simpl. rewrite Hr. destruct w; simpl.
+    + auto.
+    + rewrite Hn. simpl. auto.
+  - destruct (pop_wss_spec s1 w rest1 b ws0 Hr Hw) as (A & B & C & _).
+    { intro X. rewrite X in W. discriminate. } { intros _. exact Hn. }
+    assert (I : advance_if_ws (pop_wss s1) = pop_wss s1) by (unfold advance_if_ws, cur; rewrite A, Hn; reflexivity).
+    rewrite I. auto.
+Qed.
+
+(* the opening bracket of an array literal: advance, then parseMulitlineWS *)
+Lemma open_spec st t w r : rest st = t :: wsl w ++ r -> is_ws (look0 r) = false ->
+  rest (advance_if_ws (advance st)) = r /\ wss (advance_if_ws (advance st)) = wss st /\
+  errs (advance_if_ws (advance st)) = errs st.
+Proof.
+  intros Hr Hn. destruct (is_wss st) eqn:W.
+  - assert (A : advance st = advance_wss st).
+    { unfold advance. change (is_wss (advance_wss st)) with (is_wss st). rewrite W. reflexivity. }
+    rewrite A. unfold advance_if_ws, cur. simpl. rewrite Hr. simpl. destruct w; simpl.
+    + rewrite Hr. simpl. auto.
+    + rewrite Hn. simpl. rewrite Hr. auto.
+  - destruct (advance_tok st t w r Hr) as (A & B & C & _).
+    { rewrite W; discriminate. } { intros _; exact Hn. }
+    assert (I : advance_if_ws (advance st) = advance st) by (unfold advance_if_ws, cur; rewrite A, Hn; reflexivity).
+    rewrite I. auto.
+Qed.
+
+(* one argument of a call / element of an array literal: parseExprWSS, then advanceIfWS / parseMulitlineWS *)
+Lemma arg_step E a : consume_stmt E a -> forall st w rest1,
+  rest st = render a ++ wsl w ++ rest1 -> is_ws (look0 rest1) = false ->
+  layout_ok a = true -> tight_ok a = true ->
+  (e_fix_slice E = false -> ends_with_slice a = true -> w = false) -> atoms_ok E a ->
+  rest (consume E a (push_wss true st)) = wsl w ++ rest1 /\
+  wss (consume E a (push_wss true st)) = true :: wss st /\
+  rest (advance_if_ws (pop_wss (consume E a (push_wss true st)))) = rest1 /\
+  wss (advance_if_ws (pop_wss (consume E a (push_wss true st)))) = wss st /\
+  errs (advance_if_ws (pop_wss (consume E a (push_wss true st)))) = errs st.
+Proof.
+  intros IH st w rest1 Hr Hn Hl Ht Hg Ha.
+  destruct (IH (push_wss true st) (wsl w ++ rest1) Hr Hl (fun _ => Ht)) as (A & B & C & _); auto.
+  { intro W. discriminate W. }
+  { intros F S. rewrite (Hg F S). exact Hn. }
+  set (s1 := consume E a (push_wss true st)) in *.
+  destruct (pop_then_skip s1 w rest1 true (wss st) A B Hn) as (A2 & B2 & C2).
+  repeat split; auto. rewrite C2. exact C.
+Qed.
+
+Lemma consume_args_spec E ok args : Forall (consume_stmt E) args -> forall st wz rest0,
+  rest st = render_seq render args wz ++ rest0 -> is_ws (look0 rest0) = false ->
+  forallb (fun a => layout_ok a && tight_ok a) args = true ->
+  args_ok E ok wz args -> (forall a, ok a -> atoms_ok E a) ->
+  rest (consume_args (consume E) args st) = rest0 /\
+  wss (consume_args (consume E) args st) = wss st /\ errs (consume_args (consume E) args st) = errs st.
+Proof.
+  induction 1 as [|a t Ha Ht IH]; intros st wz rest0 Hr Hn Hl Hg Hok.
+  - rewrite consume_args_nil. rewrite render_seq_nil in Hr. auto.
+  - rewrite render_seq_cons in Hr. rewrite <- !app_assoc in Hr. rewrite consume_args_cons.
+    simpl in Hl. apply andb_true_iff in Hl as [Hla Hlt]. apply andb_true_iff in Hla as [Hla Hta].
+    destruct Hg as [[Hoa Hga] Hgt].
+    destruct (arg_step E a Ha st (seq_flag t wz) (render_seq render t wz ++ rest0) Hr) as (_ & _ & A & B & C); auto.
+    { apply render_seq_head_not_ws. exact Hn. }
+    destruct (IH (advance_if_ws (pop_wss (consume E a (push_wss true st)))) wz rest0 A) as (A2 & B2 & C2); auto.
+    rewrite A2, B2, C2, B, C. auto.
+Qed.
+
+Lemma render_pairs_head_not_ws ps wz r :
+  is_ws (look0 r) = false -> is_ws (look0 (render_pairs render ps wz ++ r)) = false.
+Proof.
+  intro H. destruct ps as [|[[k wc] v] t]; [rewrite render_pairs_nil; exact H|]. rewrite render_pairs_cons. reflexivity.
+Qed.
+
+(* one pair of a map literal, in the free context of the braces *)
+Lemma pair_step E v : consume_stmt E v -> forall st k wc w rest1,
+  rest st = ident_tok k :: mk T_COLON :: wsl wc ++ render v ++ wsl w ++ rest1 ->
+  is_wss st = false -> is_ws (look0 rest1) = false ->
+  layout_ok v = true -> tight_ok v = true ->
+  (e_fix_slice E = false -> ends_with_slice v = true -> w = false) -> atoms_ok E v ->
+  rest (advance (advance st)) = render v ++ wsl w ++ rest1 /\
+  rest (advance st) = mk T_COLON :: wsl wc ++ render v ++ wsl w ++ rest1 /\
+  rest (advance_if_ws (pop_wss (consume E v (push_wss true (advance (advance st)))))) = rest1 /\
+  wss (advance_if_ws (pop_wss (consume E v (push_wss true (advance (advance st)))))) = wss st /\
+  errs (advance_if_ws (pop_wss (consume E v (push_wss true (advance (advance st)))))) = errs st.
+Proof.
+  intros IH st k wc w rest1 Hr Hs Hn Hl Ht Hg Ha.
+  destruct (advance_tok st (ident_tok k) false (mk T_COLON :: wsl wc ++ render v ++ wsl w ++ rest1) Hr) as (A1 & B1 & C1 & _); auto.
+  destruct (advance_tok (advance st) (mk T_COLON) wc (render v ++ wsl w ++ rest1) A1) as (A2 & B2 & C2 & _).
+  { rewrite (is_wss_eq _ _ B1), Hs. discriminate. } { intros _. apply render_head_not_ws. }
+  destruct (arg_step E v IH (advance (advance st)) w rest1 A2 Hn Hl Ht Hg Ha) as (_ & _ & A & B & C).
+  rewrite A, B, C, B2, C2, B1, C1. auto 10.
+Qed.
+
+Lemma consume_pairs_spec E ok ps : Forall (fun p => consume_stmt E (snd p)) ps -> forall st wz rest0,
+  rest st = render_pairs render ps wz ++ rest0 -> is_wss st = false -> is_ws (look0 rest0) = false ->
+  forallb (fun p => layout_ok (snd p) && tight_ok (snd p)) ps = true ->
+  pairs_ok E ok wz ps -> (forall a, ok a -> atoms_ok E a) ->
+  rest (consume_pairs (consume E) ps st) = rest0 /\
+  wss (consume_pairs (consume E) ps st) = wss st /\ errs (consume_pairs (consume E) ps st) = errs st.
+Proof.
+  induction 1 as [|[[k wc] v] t Hv Ht IH]; intros st wz rest0 Hr Hs Hn Hl Hg Hok.
+  - rewrite consume_pairs_nil. rewrite render_pairs_nil in Hr. auto.
+  - rewrite render_pairs_cons in Hr. norm_app Hr. rewrite consume_pairs_cons. cbn [snd] in *.
+    simpl in Hl. apply andb_true_iff in Hl as [Hla Hlt]. apply andb_true_iff in Hla as [Hla Hta].
+    destruct Hg as [[Hoa Hga] Hgt]. cbn [snd] in Hoa, Hga.
+    destruct (pair_step E v Hv st k wc (seq_flag t wz) (render_pairs render t wz ++ rest0) Hr Hs) as (_ & _ & A & B & C); auto.
+    { apply render_pairs_head_not_ws. exact Hn. }
+    destruct (IH _ wz rest0 A) as (A2 & B2 & C2); auto.
+    { unfold is_wss. rewrite B. exact Hs. }
+    rewrite A2, B2, C2, B, C. auto.
+Qed.
+
+Lemma consume_spec E : forall l, consume_stmt E l.
+Proof.
+  induction l as [a ws|w1 e w2 IH|o e IH|o a ws b IHa IHb|e w1 i w2 IHe IHi|e w1 s w2 t w3 IHe IHs IHt|e k w IHe|e w1 t w2 w3 IHe|w1 f args wz w2 IHargs|w1 args wz w2 IHargs|w1 pairs wz w2 IHpairs]
+    using lexp_ind'; intros st rest0 Hr Hl Ht Hf Hg Hat; unfold after; cbn [consume last_ws]; simpl in Hr, Hl, Hat.
   - (* atom *)
     destruct (advance_tok st (atom_tok a) ws rest0) as (A & B & C & D & P); auto.
     { intro W. specialize (Ht W). simpl in Ht. destruct ws; [discriminate|reflexivity]. }
@@ -577,6 +868,7 @@ Proof.
     { rewrite (is_wss_eq _ _ B). exact Hf. }
     rewrite A2, B2, C2. repeat split; auto.
   - (* binary *)
+    destruct Hat as [Haa Hab].
     rewrite app_cons_assoc, <- app_assoc in Hr. apply andb_true_iff in Hl as [Hla Hlb].
     assert (Hta : is_wss st = true -> tight_ok a = true).
     { intro W. specialize (Ht W). simpl in Ht. apply andb_true_iff in Ht as [Ht _]. apply andb_true_iff in Ht as [_ Ht]. exact Ht. }
@@ -595,6 +887,7 @@ Proof.
     { rewrite (is_wss_eq _ _ B2), (is_wss_eq _ _ B1). exact Hf. }
     rewrite A3, B3, C3, B2, C2. repeat split; auto.
   - (* index *)
+    destruct Hat as [Hae Hai].
     norm_app Hr.
     apply andb_true_iff in Hl as [Hl Hli]. apply andb_true_iff in Hl as [Hlw Hle].
     destruct (IHe st (mk T_LBRACKET :: wsl w1 ++ render i ++ mk T_RBRACKET :: wsl w2 ++ rest0)) as (A1 & B1 & C1 & _); auto.
@@ -615,6 +908,7 @@ Proof.
     + intro W. rewrite (D4 W). simpl. unfold cur. rewrite A3. reflexivity.
     + intro Q. apply P4; auto. intros ->. simpl. rewrite A3. reflexivity.
   - (* slice *)
+    destruct Hat as (Hae & Has & Hat').
     norm_app Hr.
     apply andb_true_iff in Hl as [Hl Hlt]. apply andb_true_iff in Hl as [Hl Hls]. apply andb_true_iff in Hl as [Hlw Hle].
     set (rt := (match t with Some x => render x | None => [] end) ++ mk T_RBRACKET :: wsl w3 ++ rest0) in *.
@@ -682,6 +976,7 @@ Proof.
     { rewrite (is_wss_eq _ _ B2), (is_wss_eq _ _ B1). exact Hf. }
     rewrite A3, B3, C3, B2, C2. repeat split; auto. intros ->. rewrite D3. reflexivity.
   - (* type assertion *)
+    destruct Hat as [Hae _].
     norm_app Hr.
     apply andb_true_iff in Hl as [Hlw Hle].
     destruct (IHe st (mk T_DOT :: mk T_LPAREN :: wsl w1 ++ render_ty t ++ wsl w2 ++ mk T_RPAREN :: wsl w3 ++ rest0))
@@ -706,6 +1001,62 @@ Proof.
     rewrite A5, B5, C5. simpl. rewrite C4, C3, C2. simpl. rewrite C1. repeat split; auto.
     + intro W. rewrite (D5 W). simpl. unfold cur. rewrite A4. reflexivity.
     + intro Q. apply P5; auto. intros ->. simpl. rewrite A4. reflexivity.
+  - (* call in parentheses *)
+    norm_app Hr. destruct Hat as (_ & _ & Hargs).
+    set (st0 := push_wss false st).
+    set (r2 := mk T_RPAREN :: wsl w2 ++ rest0) in *.
+    set (r1 := render_seq render args wz ++ r2) in *.
+    assert (Hr0 : rest st0 = mk T_LPAREN :: wsl w1 ++ (ident_tok f :: wsl (seq_flag args wz) ++ r1)) by exact Hr.
+    destruct (advance_tok st0 _ _ _ Hr0) as (A1 & B1 & C1 & _).
+    { intro W; discriminate W. } { intros _. reflexivity. }
+    set (st1 := advance st0) in *.
+    assert (W1 : is_wss st1 = false) by (apply (is_wss_pushed st _ false B1)).
+    assert (Hr1h : is_ws (look0 r1) = false) by (unfold r1; apply render_seq_head_not_ws; reflexivity).
+    destruct (advance_tok st1 _ _ _ A1) as (A2 & B2 & C2 & _).
+    { rewrite W1. discriminate. } { intros _. exact Hr1h. }
+    set (st2 := advance st1) in *.
+    assert (W2 : is_wss st2 = false) by (rewrite (is_wss_eq _ _ B2); exact W1).
+    destruct (consume_args_spec E (atoms_ok E) args IHargs st2 wz r2 A2) as (A3 & B3 & C3); auto.
+    set (st3 := consume_args (consume E) args st2) in *.
+    destruct (pop_wss_spec (advance_wss st3) w2 rest0 false (wss st)) as (A4 & B4 & C4 & D4 & P4).
+    { simpl. rewrite A3. reflexivity. }
+    { simpl. rewrite B3, B2, B1. reflexivity. }
+    { intro W. specialize (Ht W). simpl in Ht. destruct w2; [discriminate|reflexivity]. }
+    { exact Hf. }
+    rewrite A4, B4, C4. simpl. rewrite C3, C2, C1. repeat split; auto.
+    + intro W. rewrite (D4 W). simpl. unfold cur. rewrite A3. reflexivity.
+    + intro Q. apply P4; auto. intros ->. simpl. rewrite A3. reflexivity.
+  - (* array literal *)
+    norm_app Hr.
+    set (r2 := mk T_RBRACKET :: wsl w2 ++ rest0) in *.
+    assert (Hh : is_ws (look0 (render_seq render args wz ++ r2)) = false) by (apply render_seq_head_not_ws; reflexivity).
+    destruct (open_spec st _ _ _ Hr Hh) as (A1 & B1 & C1).
+    set (st1 := advance_if_ws (advance st)) in *.
+    destruct (consume_args_spec E (atoms_ok E) args IHargs st1 wz r2 A1) as (A2 & B2 & C2); auto.
+    set (st2 := consume_args (consume E) args st1) in *.
+    destruct (advance_tok st2 _ _ _ A2) as (A3 & B3 & C3 & D3 & P3).
+    { rewrite (is_wss_eq _ _ B2), (is_wss_eq _ _ B1). intro W. specialize (Ht W). simpl in Ht. destruct w2; [discriminate|reflexivity]. }
+    { rewrite (is_wss_eq _ _ B2), (is_wss_eq _ _ B1). exact Hf. }
+    rewrite A3, B3, C3, B2, C2, B1, C1. repeat split; auto. intros ->. rewrite D3. reflexivity.
+  - (* map literal *)
+    norm_app Hr. destruct Hat as [_ Hps].
+    set (st0 := push_wss false st).
+    set (r2 := mk T_RCURLY :: wsl w2 ++ rest0) in *.
+    assert (Hh : is_ws (look0 (render_pairs render pairs wz ++ r2)) = false) by (apply render_pairs_head_not_ws; reflexivity).
+    assert (Hr0 : rest st0 = mk T_LCURLY :: wsl w1 ++ (render_pairs render pairs wz ++ r2)) by exact Hr.
+    destruct (open_spec st0 _ _ _ Hr0 Hh) as (A1 & B1 & C1).
+    set (st1 := advance_if_ws (advance st0)) in *.
+    assert (W1 : is_wss st1 = false) by (apply (is_wss_pushed st _ false B1)).
+    destruct (consume_pairs_spec E (atoms_ok E) pairs IHpairs st1 wz r2 A1 W1) as (A2 & B2 & C2); auto.
+    set (st2 := consume_pairs (consume E) pairs st1) in *.
+    destruct (pop_wss_spec (advance_wss st2) w2 rest0 false (wss st)) as (A4 & B4 & C4 & D4 & P4).
+    { simpl. rewrite A2. reflexivity. }
+    { simpl. rewrite B2, B1. reflexivity. }
+    { intro W. specialize (Ht W). simpl in Ht. destruct w2; [discriminate|reflexivity]. }
+    { exact Hf. }
+    rewrite A4, B4, C4. simpl. rewrite C2, C1. repeat split; auto.
+    + intro W. rewrite (D4 W). simpl. unfold cur. rewrite A2. reflexivity.
+    + intro Q. apply P4; auto. intros ->. simpl. rewrite A2. reflexivity.
 Qed.
 
 (* ================================================================ *)
@@ -724,17 +1075,24 @@ Fixpoint wl (l : lexp) : Prop :=
       (match t with Some x => wl x | None => True end) /\ rank_primary <= toprank e
   | LDot e _ _ => wl e /\ rank_primary <= toprank e
   | LAssert e _ _ _ _ => wl e /\ rank_primary <= toprank e
+  | LCall _ _ args _ _ => allP wl args
+  | LArr _ elems _ _ => allP wl elems
+  | LMap _ pairs _ _ => allP (fun p => wl (snd p)) pairs
   end.
 
 Lemma Lay_wl n l : Lay n l -> wl l /\ n <= toprank l.
 Proof.
   induction 1 as [n l _ [IH1 IH2]|o l ws r _ [IHl1 IHl2] _ [IHr1 IHr2]|o e _ [IH1 IH2]|a ws|w1 e w2 _ [IH1 IH2]
-                 |e w1 i w2 _ [IHe1 IHe2] _ [IHi1 IHi2]|e w1 s w2 t w3 _ [IHe1 IHe2] _ IHs _ IHt|e k w _ [IH1 IH2]|e w1 t w2 w3 _ [IH1 IH2]];
+                 |e w1 i w2 _ [IHe1 IHe2] _ [IHi1 IHi2]|e w1 s w2 t w3 _ [IHe1 IHe2] _ IHs _ IHt|e k w _ [IH1 IH2]|e w1 t w2 w3 _ [IH1 IH2]
+                 |w1 f args wz w2 _ IHc|w1 args wz w2 _ IHc|w1 pairs wz w2 _ IHc];
     simpl; auto.
   - split; [assumption|lia].
   - repeat split; auto.
     + destruct s as [x|]; [|exact I]. exact (proj1 (IHs x eq_refl)).
     + destruct t as [x|]; [|exact I]. exact (proj1 (IHt x eq_refl)).
+  - split; [|apply Nat.le_refl]. apply allP_In. intros a Ha. exact (proj1 (IHc a Ha)).
+  - split; [|apply Nat.le_refl]. apply allP_In. intros a Ha. exact (proj1 (IHc a Ha)).
+  - split; [|apply Nat.le_refl]. apply allP_In. intros a Ha. exact (proj1 (IHc a Ha)).
 Qed.
 
 (* binding power (from the generated table) of the outermost production *)
@@ -779,6 +1137,12 @@ Fixpoint need (l : lexp) : nat :=
                  (match t with Some x => S (spine x + Nat.max 1 (need x)) | None => 0 end))
   | LDot e _ _ => need e
   | LAssert e _ t _ _ => Nat.max (need e) (ty_size t)
+  | LCall _ _ args _ _ =>
+      Nat.max (S (List.length args)) (max_over (fun a => S (spine a + Nat.max 1 (need a))) args)
+  | LArr _ elems _ _ =>
+      Nat.max (S (S (List.length elems))) (max_over (fun a => S (spine a + Nat.max 1 (need a))) elems)
+  | LMap _ pairs _ _ =>
+      Nat.max (S (S (List.length pairs))) (max_over (fun p => S (spine (snd p) + Nat.max 1 (need (snd p)))) pairs)
   end.
 
 (* the token after the expression lets a loop running at power p stop *)
@@ -906,12 +1270,15 @@ Proof. intro Hr. unfold parse_prefix, cur_t, cur. rewrite Hr. reflexivity. Qed.
 Lemma first_tok_not_call E e :
   atoms_ok E e -> ttype (first_tok e) = T_IDENT -> func_of E (tlit (first_tok e)) = None.
 Proof.
-  induction e as [a ws|w1 e w2 IH|o e IH|o a ws b IHa IHb|e w1 i w2 IHe IHi|e w1 s w2 t w3 IHe IHs IHt|e k w IHe|e w1 t w2 w3 IHe]
+  induction e as [a ws|w1 e w2 IH|o e IH|o a ws b IHa IHb|e w1 i w2 IHe IHi|e w1 s w2 t w3 IHe IHs IHt|e k w IHe|e w1 t w2 w3 IHe|w1 f args wz w2 IHargs|w1 args wz w2 IHargs|w1 pairs wz w2 IHpairs]
     using lexp_ind'; simpl; intros Ha Ht; try (apply IHe; tauto).
   - destruct a as [| |[]|n]; try discriminate Ht. simpl. apply Ha.
   - discriminate Ht.
   - destruct o; discriminate Ht.
   - apply IHa; tauto.
+  - discriminate Ht.
+  - discriminate Ht.
+  - discriminate Ht.
 Qed.
 
 Lemma toplevel_is_expr E pe f st e r :
@@ -937,9 +1304,9 @@ Lemma cur_t_first l st r : rest st = render l ++ r -> cur_t st = ttype (first_to
 Proof. intro H. destruct (render_first l) as [x Hx]. rewrite Hx in H. unfold cur_t, cur. rewrite H. reflexivity. Qed.
 
 Lemma first_not_colon l : ttype (first_tok l) <> T_COLON.
-Proof. destruct (first_tok_prefix l) as [H|[H|[H|[H|[H|[H|[H|H]]]]]]]; rewrite H; discriminate. Qed.
+Proof. destruct (first_tok_prefix l) as [H|[H|[H|[H|[H|[H|[H|[H|[H|H]]]]]]]]]; rewrite H; discriminate. Qed.
 Lemma first_not_rbracket l : ttype (first_tok l) <> T_RBRACKET.
-Proof. destruct (first_tok_prefix l) as [H|[H|[H|[H|[H|[H|[H|H]]]]]]]; rewrite H; discriminate. Qed.
+Proof. destruct (first_tok_prefix l) as [H|[H|[H|[H|[H|[H|[H|[H|[H|H]]]]]]]]]; rewrite H; discriminate. Qed.
 
 (* parseType on the tokens of a type, in the free context of an assertion's parentheses *)
 Lemma parse_type_spec t : forall st w rest0 f,
@@ -1000,6 +1367,296 @@ Proof.
   - apply p_ok_lowest.
 Qed.
 
+(* a complete sub-expression in any context, followed by a token that ends it *)
+Lemma sub_expr_gen E x : pratt_stmt E x ->
+  forall st rest0 k,
+  wl x -> atoms_ok E x -> layout_ok x = true ->
+  rest st = render x ++ rest0 ->
+  (is_wss st = true -> tight_ok x = true) ->
+  (is_wss st = false -> is_ws (look0 rest0) = false) ->
+  (e_fix_slice E = false -> ends_with_slice x = true -> is_ws (look0 rest0) = false) ->
+  stop_tok (is_wss st) lowestPrec (look0 rest0) ->
+  S (spine x + Nat.max 1 (need x)) <= k ->
+  parse_expr E k lowestPrec st = Some (Some (tree_of x), consume E x st).
+Proof.
+  intros IH st rest0 k Hw Ha Hl Hr Ht Hf Hg Hstop Hk.
+  assert (Hex : exists k', k = S (spine x + S k') /\ need x <= S k') by (exists (k - S (spine x) - 1); lia).
+  destruct Hex as (k' & -> & Hk').
+  rewrite (IH st rest0 lowestPrec (S k')); auto.
+  - destruct (consume_spec E x st rest0) as (A & B & C & _); auto.
+    rewrite expr_loop_stop; [reflexivity|].
+    unfold cur. rewrite A, (is_wss_eq _ _ B). exact Hstop.
+  - eapply stop_tok_mono; [|exact Hstop]. rewrite lowest_zero. lia.
+  - apply p_ok_lowest.
+Qed.
+
+(* "(" f ... : parseTopLevelExpr takes the call branch *)
+Lemma toplevel_call E pe k st f r :
+  rest st = ident_tok f :: r -> func_of E f = Some false ->
+  parse_toplevel E pe k st = parse_func_call E pe k true false st.
+Proof. intros Hr Hf. unfold parse_toplevel, cur_t, cur. rewrite Hr. simpl. rewrite Hf. reflexivity. Qed.
+
+(* parseExprList on the first token of an argument *)
+Lemma expr_list_step pe f acc st : prefix_tt (cur_t st) ->
+  parse_expr_list pe (S f) acc st =
+  match parse_expr_wss pe st with
+  | None => None
+  | Some (n, st1) =>
+      match n with None => ret None st1 | Some t => parse_expr_list pe f (t :: acc) (advance_if_ws st1) end
+  end.
+Proof.
+  intro H. cbn [parse_expr_list]. unfold is_at_eol.
+  destruct H as [H|[H|[H|[H|[H|[H|[H|[H|[H|H]]]]]]]]]; rewrite H; reflexivity.
+Qed.
+
+(* the token after an argument ends a whitespace-sensitive expression *)
+Lemma seq_stop (t : list lexp) wz c r : is_eol (ttype c) = true \/ precedences (ttype c) <= lowestPrec ->
+  stop_tok true lowestPrec (look0 (wsl (seq_flag t wz) ++ render_seq render t wz ++ c :: r)).
+Proof.
+  intro H. destruct t as [|b t]; [destruct wz|]; simpl.
+  - left. split; reflexivity.
+  - rewrite ?render_seq_nil. right. exact H.
+  - left. split; reflexivity.
+Qed.
+
+(* the tokens that end an argument list: ")" of a call in parentheses, the end of line of a call statement *)
+Definition list_end (c : token) : Prop := ttype c = T_RPAREN \/ is_eol (ttype c) = true.
+Lemma list_end_not_ws c : list_end c -> is_ws c = false.
+Proof.
+  unfold is_ws. intros [H|H]; [rewrite H; reflexivity|]. destruct (ttype c); try discriminate H; reflexivity.
+Qed.
+Lemma list_end_stop c : list_end c -> is_eol (ttype c) = true \/ precedences (ttype c) <= lowestPrec.
+Proof. intros [H|H]; [right; rewrite H, rparen_lowest; apply Nat.le_refl|left; exact H]. Qed.
+
+(* parseExprList on a whitespace-separated list of tight arguments, up to the closing parenthesis / the end of line *)
+Lemma expr_list_spec E : no_tyerr E -> forall k args, Forall (pratt_stmt E) args -> forall f st wz c r acc,
+  list_end c ->
+  allP wl args -> args_ok E (atoms_ok E) wz args ->
+  forallb (fun a => layout_ok a && tight_ok a) args = true ->
+  rest st = render_seq render args wz ++ c :: r -> is_wss st = false ->
+  List.length args < f ->
+  max_over (fun a => S (spine a + Nat.max 1 (need a))) args <= k ->
+  parse_expr_list (parse_expr E k) f acc st =
+    Some (Some (rev acc ++ map tree_of args), consume_args (consume E) args st).
+Proof.
+  intros NT k args HF. induction HF as [|a t Ha Ht IH]; intros f st wz c r acc Hc Hwl Hat Hl Hr Hs Hf Hk.
+  - rewrite render_seq_nil in Hr. simpl in Hr. destruct f as [|f]; [simpl in Hf; lia|].
+    rewrite consume_args_nil. change (map tree_of []) with (@nil tree). rewrite app_nil_r.
+    cbn [parse_expr_list]. unfold is_at_eol, cur_t, cur. rewrite Hr. cbn [look0 hd].
+    destruct Hc as [H|H]; [rewrite H; reflexivity|]. destruct (ttype c); try discriminate H; reflexivity.
+  - destruct f as [|f]; [simpl in Hf; lia|].
+    rewrite render_seq_cons in Hr. rewrite <- !app_assoc in Hr.
+    destruct Hwl as [Hwa Hwt]. destruct Hat as [[Haa Hga] Hat].
+    simpl in Hl. apply andb_true_iff in Hl as [Hla Hlt]. apply andb_true_iff in Hla as [Hla Hta].
+    rewrite max_over_cons in Hk. apply Nat.max_lub_iff in Hk as [Hka Hkt].
+    rewrite expr_list_step by (rewrite (cur_t_first a st _ Hr); apply first_tok_prefix).
+    unfold parse_expr_wss.
+    set (rest1 := render_seq render t wz ++ c :: r) in *.
+    assert (Hn : is_ws (look0 rest1) = false) by (apply render_seq_head_not_ws; exact (list_end_not_ws c Hc)).
+    destruct (arg_step E a (consume_spec E a) st (seq_flag t wz) rest1 Hr Hn Hla Hta Hga Haa) as (A0 & B0 & A & B & C).
+    rewrite (sub_expr_gen E a Ha (push_wss true st) (wsl (seq_flag t wz) ++ rest1) k Hwa Haa Hla Hr (fun _ => Hta)).
+    + unfold ret. rewrite consume_args_cons.
+      rewrite (IH f _ wz c r (tree_of a :: acc)); auto.
+      * simpl. rewrite <- app_assoc. reflexivity.
+      * unfold is_wss. rewrite B. exact Hs.
+      * simpl in Hf. lia.
+    + intro W. discriminate W.
+    + intros F S. rewrite (Hga F S). exact Hn.
+    + apply seq_stop. apply list_end_stop. exact Hc.
+    + exact Hka.
+Qed.
+
+(* ---- array literals ---- *)
+Lemma prefix_arr E pe f st r :
+  rest st = mk T_LBRACKET :: r -> parse_prefix E pe f st = parse_array_literal E pe f st.
+Proof. intro Hr. unfold parse_prefix, parse_literal, cur_t, cur. rewrite Hr. reflexivity. Qed.
+
+Definition nonblank (t : toktype) : Prop := t <> T_NL /\ t <> T_WS /\ t <> T_COMMENT.
+
+Lemma ml_S f st :
+  parse_multiline_ws (S f) st =
+  match cur_t st with
+  | T_NL | T_WS => parse_multiline_ws f (advance_wss st)
+  | T_COMMENT => parse_multiline_ws f (advance_wss (snd (assert_token T_NL (advance_wss st))))
+  | _ => Some st
+  end.
+Proof. reflexivity. Qed.
+
+Lemma ml_stop f s : nonblank (cur_t s) -> parse_multiline_ws (S f) s = Some s.
+Proof. intros (N1 & N2 & N3). rewrite ml_S. destruct (cur_t s); try reflexivity; congruence. Qed.
+
+(* parseMulitlineWS where at most one whitespace token precedes the next element / the closing bracket *)
+Lemma ml_skip_gen n s : 2 <= n -> nonblank (cur_t (advance_if_ws s)) ->
+  parse_multiline_ws n s = Some (advance_if_ws s).
+Proof.
+  intros Hn N. destruct n as [|[|n]]; try lia. revert N. unfold advance_if_ws.
+  destruct (is_ws (cur s)) eqn:W; intro N.
+  - assert (C : cur_t s = T_WS).
+    { unfold is_ws in W. unfold cur_t. destruct (ttype (cur s)); try discriminate W. reflexivity. }
+    rewrite ml_S, C. apply ml_stop. exact N.
+  - apply ml_stop. exact N.
+Qed.
+
+Lemma seq_head_nonblank (t : list lexp) wz r :
+  nonblank (ttype (look0 (render_seq render t wz ++ mk T_RBRACKET :: r))).
+Proof.
+  destruct t as [|a t].
+  - rewrite render_seq_nil. simpl. repeat split; discriminate.
+  - rewrite render_seq_cons, <- app_assoc. destruct (render_first a) as [x ->]. simpl.
+    destruct (first_tok_prefix a) as [H|[H|[H|[H|[H|[H|[H|[H|[H|H]]]]]]]]]; rewrite H; repeat split; discriminate.
+Qed.
+
+Lemma array_elems_step E pe f acc st : prefix_tt (cur_t st) ->
+  parse_array_elems E pe (S f) acc st =
+  match parse_expr_wss pe st with
+  | None => None
+  | Some (n, st1) =>
+      match n with
+      | None => ret None st1
+      | Some t =>
+          if tyerr E TS_array_elem_none t (here st) then ret None (add_err_at (E_type TS_array_elem_none) (here st) st1) else
+          match parse_multiline_ws (S f) st1 with
+          | None => None
+          | Some st2 => parse_array_elems E pe f (t :: acc) st2
+          end
+      end
+  end.
+Proof.
+  intro H. cbn [parse_array_elems].
+  destruct H as [H|[H|[H|[H|[H|[H|[H|[H|[H|H]]]]]]]]]; rewrite H; reflexivity.
+Qed.
+
+Lemma seq_stop_rbracket (t : list lexp) wz r :
+  stop_tok true lowestPrec (look0 (wsl (seq_flag t wz) ++ render_seq render t wz ++ mk T_RBRACKET :: r)).
+Proof. apply seq_stop. right. change (precedences T_RBRACKET <= lowestPrec). rewrite rbracket_lowest. apply Nat.le_refl. Qed.
+
+(* the element loop of parseArrayLiteral on a whitespace-separated list of tight elements *)
+Lemma array_elems_spec E : no_tyerr E -> forall k args, Forall (pratt_stmt E) args -> forall f st wz r acc,
+  allP wl args -> args_ok E (atoms_ok E) wz args ->
+  forallb (fun a => layout_ok a && tight_ok a) args = true ->
+  rest st = render_seq render args wz ++ mk T_RBRACKET :: r ->
+  S (List.length args) < f ->
+  max_over (fun a => S (spine a + Nat.max 1 (need a))) args <= k ->
+  parse_array_elems E (parse_expr E k) f acc st =
+    Some (Some (rev acc ++ map tree_of args), consume_args (consume E) args st).
+Proof.
+  intros NT k args HF. induction HF as [|a t Ha Ht IH]; intros f st wz r acc Hwl Hat Hl Hr Hf Hk.
+  - rewrite render_seq_nil in Hr. simpl in Hr. destruct f as [|f]; [simpl in Hf; lia|].
+    rewrite consume_args_nil. cbn [parse_array_elems]. unfold cur_t, cur. rewrite Hr. simpl.
+    rewrite app_nil_r. reflexivity.
+  - destruct f as [|f]; [simpl in Hf; lia|].
+    rewrite render_seq_cons in Hr. rewrite <- !app_assoc in Hr.
+    destruct Hwl as [Hwa Hwt]. destruct Hat as [[Haa Hga] Hat].
+    simpl in Hl. apply andb_true_iff in Hl as [Hla Hlt]. apply andb_true_iff in Hla as [Hla Hta].
+    rewrite max_over_cons in Hk. apply Nat.max_lub_iff in Hk as [Hka Hkt].
+    rewrite array_elems_step by (rewrite (cur_t_first a st _ Hr); apply first_tok_prefix).
+    unfold parse_expr_wss.
+    set (rest1 := render_seq render t wz ++ mk T_RBRACKET :: r) in *.
+    assert (Hn : is_ws (look0 rest1) = false) by (apply render_seq_head_not_ws; reflexivity).
+    destruct (arg_step E a (consume_spec E a) st (seq_flag t wz) rest1 Hr Hn Hla Hta Hga Haa) as (A0 & B0 & A & B & C).
+    rewrite (sub_expr_gen E a Ha (push_wss true st) (wsl (seq_flag t wz) ++ rest1) k Hwa Haa Hla Hr (fun _ => Hta)).
+    + unfold ret. rewrite (tyerr_false E) by exact NT. rewrite consume_args_cons.
+      rewrite (ml_skip_gen (S f) (pop_wss (consume E a (push_wss true st)))).
+      * rewrite (IH f _ wz r (tree_of a :: acc)); auto.
+        -- simpl. rewrite <- app_assoc. reflexivity.
+        -- simpl in Hf. lia.
+      * simpl in Hf. lia.
+      * unfold cur_t, cur. rewrite A. apply seq_head_nonblank.
+    + intro W. discriminate W.
+    + intros F S. rewrite (Hga F S). exact Hn.
+    + apply seq_stop_rbracket.
+    + exact Hka.
+Qed.
+
+(* ---- map literals ---- *)
+Lemma prefix_map E pe f st r :
+  rest st = mk T_LCURLY :: r -> parse_prefix E pe f st = parse_map_literal E pe f st.
+Proof. intro Hr. unfold parse_prefix, parse_literal, cur_t, cur. rewrite Hr. reflexivity. Qed.
+
+Lemma has_key_keys k acc : has_key k acc = existsb (fun k' => str_eqb k' k) (map fst acc).
+Proof. induction acc as [|[k' t] acc IH]; simpl; [reflexivity|]. rewrite IH. reflexivity. Qed.
+
+Lemma map_pairs_step E pe f acc st k r :
+  rest st = ident_tok k :: mk T_COLON :: r -> has_key k acc = false ->
+  parse_map_pairs E pe (S f) acc st =
+  match parse_expr_wss pe (advance (advance st)) with
+  | None => None
+  | Some (n, st4) =>
+      match n with
+      | None => ret None st4
+      | Some t =>
+          if tyerr E TS_map_value_none t (here (advance (advance st)))
+          then ret None (add_err_at (E_type TS_map_value_none) (here (advance (advance st))) st4) else
+          match parse_multiline_ws (S f) st4 with
+          | None => None
+          | Some st5 => parse_map_pairs E pe f ((k, t) :: acc) st5
+          end
+      end
+  end.
+Proof.
+  intros Hr Hk. cbn [parse_map_pairs].
+  assert (C : cur st = ident_tok k) by (unfold cur; rewrite Hr; reflexivity).
+  unfold cur_t. rewrite C. change (as_ident (ident_tok k)) with (ident_tok k). cbn [ident_tok ttype tlit]. rewrite Hk.
+  destruct (advance_tok st (ident_tok k) false (mk T_COLON :: r) Hr) as (A & _); auto.
+  unfold assert_token, cur_t, cur. rewrite A. reflexivity.
+Qed.
+
+Lemma pairs_head_nonblank (t : list (str * bool * lexp)) wz r :
+  nonblank (ttype (look0 (render_pairs render t wz ++ mk T_RCURLY :: r))).
+Proof.
+  destruct t as [|[[k wc] v] t]; [rewrite render_pairs_nil|rewrite render_pairs_cons]; simpl; repeat split; discriminate.
+Qed.
+
+Lemma pairs_stop (t : list (str * bool * lexp)) wz r :
+  stop_tok true lowestPrec (look0 (wsl (seq_flag t wz) ++ render_pairs render t wz ++ mk T_RCURLY :: r)).
+Proof.
+  destruct t as [|[[k wc] v] t]; [destruct wz|]; simpl.
+  - left. split; reflexivity.
+  - rewrite ?render_pairs_nil. right; right. change (precedences T_RCURLY <= lowestPrec). rewrite rcurly_lowest. apply Nat.le_refl.
+  - left. split; reflexivity.
+Qed.
+
+(* parseMapPairs on a whitespace-separated list of key:value pairs with tight values and distinct keys *)
+Lemma map_pairs_spec E : no_tyerr E -> forall k ps, Forall (fun p => pratt_stmt E (snd p)) ps -> forall f st wz r acc,
+  allP (fun p => wl (snd p)) ps -> pairs_ok E (atoms_ok E) wz ps ->
+  keys_fresh (map fst acc) (map pair_key ps) ->
+  forallb (fun p => layout_ok (snd p) && tight_ok (snd p)) ps = true ->
+  rest st = render_pairs render ps wz ++ mk T_RCURLY :: r -> is_wss st = false ->
+  S (List.length ps) < f ->
+  max_over (fun p => S (spine (snd p) + Nat.max 1 (need (snd p)))) ps <= k ->
+  parse_map_pairs E (parse_expr E k) f acc st =
+    Some (Some (rev acc ++ map (fun p => match p with (k, _, v) => (k, tree_of v) end) ps), consume_pairs (consume E) ps st).
+Proof.
+  intros NT k ps HF. induction HF as [|[[key wc] v] t Hv Ht IH]; intros f st wz r acc Hwl Hat Hfr Hl Hr Hs Hf Hk.
+  - rewrite render_pairs_nil in Hr. simpl in Hr. destruct f as [|f]; [simpl in Hf; lia|].
+    rewrite consume_pairs_nil. cbn [parse_map_pairs]. unfold cur_t, cur. rewrite Hr. simpl.
+    rewrite app_nil_r. reflexivity.
+  - destruct f as [|f]; [simpl in Hf; lia|].
+    rewrite render_pairs_cons in Hr. norm_app Hr. cbn [snd] in Hv.
+    destruct Hwl as [Hwa Hwt]. destruct Hat as [[Haa Hga] Hat]. cbn [snd] in Hwa, Haa, Hga.
+    simpl in Hfr. destruct Hfr as [Hfk Hfr].
+    simpl in Hl. apply andb_true_iff in Hl as [Hla Hlt]. apply andb_true_iff in Hla as [Hla Hta].
+    rewrite max_over_cons in Hk. cbn [snd] in Hk. apply Nat.max_lub_iff in Hk as [Hka Hkt].
+    rewrite (map_pairs_step E _ f acc st key _ Hr) by (rewrite has_key_keys; exact Hfk).
+    set (rest1 := render_pairs render t wz ++ mk T_RCURLY :: r) in *.
+    assert (Hn : is_ws (look0 rest1) = false) by (apply render_pairs_head_not_ws; reflexivity).
+    destruct (pair_step E v (consume_spec E v) st key wc (seq_flag t wz) rest1 Hr Hs Hn Hla Hta Hga Haa) as (A0 & _ & A & B & C).
+    unfold parse_expr_wss.
+    rewrite (sub_expr_gen E v Hv (push_wss true (advance (advance st))) (wsl (seq_flag t wz) ++ rest1) k Hwa Haa Hla A0 (fun _ => Hta)).
+    + unfold ret. rewrite (tyerr_false E) by exact NT. rewrite consume_pairs_cons. cbn [snd].
+      rewrite (ml_skip_gen (S f) (pop_wss (consume E v (push_wss true (advance (advance st)))))).
+      * rewrite (IH f _ wz r ((key, tree_of v) :: acc)); auto.
+        -- simpl. rewrite <- app_assoc. reflexivity.
+        -- unfold is_wss. rewrite B. exact Hs.
+        -- simpl in Hf. lia.
+      * simpl in Hf. lia.
+      * unfold cur_t, cur. rewrite A. apply pairs_head_nonblank.
+    + intro W. discriminate W.
+    + intros F S. rewrite (Hga F S). exact Hn.
+    + apply pairs_stop.
+    + exact Hka.
+Qed.
+
 (* parseSlice after the colon *)
 Lemma parse_slice_spec E t : no_tyerr E -> optP (pratt_stmt E) t ->
   forall st w3 rest0 k tok left start,
@@ -1025,7 +1682,7 @@ Qed.
 Lemma pratt_general E : no_tyerr E -> forall l, pratt_stmt E l.
 Proof.
   intro NT.
-  induction l as [a ws|w1 e w2 IH|o e IH|o a ws b IHa IHb|e w1 i w2 IHe IHi|e w1 s w2 t w3 IHe IHs IHt|e k0 w IHe|e w1 t w2 w3 IHe]
+  induction l as [a ws|w1 e w2 IH|o e IH|o a ws b IHa IHb|e w1 i w2 IHe IHi|e w1 s w2 t w3 IHe IHs IHt|e k0 w IHe|e w1 t w2 w3 IHe|w1 f args wz w2 IHargs|w1 args wz w2 IHargs|w1 pairs wz w2 IHpairs]
     using lexp_ind'; intros st rest0 p k Hwl Hat Hl Hr Ht Hf Hg Hstop Hp Hk.
   - (* atom *)
     simpl spine. simpl plus. rewrite parse_expr_S.
@@ -1281,6 +1938,76 @@ Proof.
     set (s3 := consume_ty t s2) in *.
     replace (match t with TyAny => add_err_at E_assert_any (here se) s3 | _ => s3 end) with s3 by (destruct t; congruence).
     unfold assert_token, cur_t, cur. rewrite A4. simpl. repeat (rewrite (tyerr_false E) by exact NT). reflexivity.
+  - (* call in parentheses *)
+    simpl spine. simpl plus. rewrite parse_expr_S.
+    simpl in Hr. norm_app Hr. rewrite (prefix_group E _ _ st _ Hr). unfold parse_grouped.
+    set (st0 := push_wss false st).
+    set (r2 := wsl w2 ++ rest0) in *.
+    set (r1 := render_seq render args wz ++ mk T_RPAREN :: r2) in *.
+    assert (Hr0 : rest st0 = mk T_LPAREN :: wsl w1 ++ (ident_tok f :: wsl (seq_flag args wz) ++ r1)) by exact Hr.
+    destruct (advance_tok st0 _ _ _ Hr0) as (A1 & B1 & C1 & _).
+    { intro W; discriminate W. } { intros _. reflexivity. }
+    set (st1 := advance st0) in *.
+    assert (W1 : is_wss st1 = false) by (apply (is_wss_pushed st _ false B1)).
+    simpl in Hwl, Hat, Hl. cbn [need] in Hk. destruct Hat as (Hfn & Har & Hargs).
+    apply Nat.max_lub_iff in Hk as [Hk1 Hk2].
+    rewrite (toplevel_call E _ _ st1 f _ A1 Hfn).
+    unfold parse_func_call.
+    replace (tlit (cur st1)) with f by (unfold cur; rewrite A1; reflexivity).
+    cbn [orb negb].
+    assert (Hr1h : is_ws (look0 r1) = false) by (unfold r1; apply render_seq_head_not_ws; reflexivity).
+    destruct (advance_tok st1 _ _ _ A1) as (A2 & B2 & C2 & _).
+    { rewrite W1. discriminate. } { intros _. exact Hr1h. }
+    set (st2 := advance st1) in *.
+    assert (W2 : is_wss st2 = false) by (rewrite (is_wss_eq _ _ B2); exact W1).
+    rewrite (expr_list_spec E NT k args IHargs k st2 wz (mk T_RPAREN) r2 [] (or_introl eq_refl) Hwl Hargs Hl A2 W2 Hk1 Hk2).
+    assert (HC : Forall (consume_stmt E) args) by (apply Forall_forall; intros a _; apply consume_spec).
+    destruct (consume_args_spec E (atoms_ok E) args HC st2 wz (mk T_RPAREN :: r2) A2) as (A3 & B3 & C3); auto.
+    set (st3 := consume_args (consume E) args st2) in *.
+    change (rev [] ++ map tree_of args) with (map tree_of args).
+    cbv beta iota zeta. rewrite map_length, Har. rewrite (tyerr_false E) by exact NT. unfold ret. cbv beta iota.
+    unfold assert_token, cur_t, cur. rewrite A3. simpl. reflexivity.
+  - (* array literal *)
+    simpl spine. simpl plus. rewrite parse_expr_S.
+    simpl in Hr. norm_app Hr. rewrite (prefix_arr E _ _ st _ Hr). unfold parse_array_literal.
+    set (r2 := wsl w2 ++ rest0) in *.
+    assert (Hh : is_ws (look0 (render_seq render args wz ++ mk T_RBRACKET :: r2)) = false)
+      by (apply render_seq_head_not_ws; reflexivity).
+    destruct (open_spec st _ _ _ Hr Hh) as (A1 & B1 & C1).
+    simpl in Hwl, Hat, Hl. cbn [need] in Hk. apply Nat.max_lub_iff in Hk as [Hk1 Hk2].
+    rewrite (ml_skip_gen k (advance st)).
+    2:{ lia. }
+    2:{ unfold cur_t, cur. rewrite A1. apply seq_head_nonblank. }
+    set (st1 := advance_if_ws (advance st)) in *.
+    assert (Hk1' : S (List.length args) < k) by lia.
+    rewrite (array_elems_spec E NT k args IHargs k st1 wz r2 [] Hwl Hat Hl A1 Hk1' Hk2).
+    assert (HC : Forall (consume_stmt E) args) by (apply Forall_forall; intros a _; apply consume_spec).
+    destruct (consume_args_spec E (atoms_ok E) args HC st1 wz (mk T_RBRACKET :: r2) A1) as (A2 & B2 & C2); auto.
+    set (st2 := consume_args (consume E) args st1) in *.
+    change (rev [] ++ map tree_of args) with (map tree_of args).
+    cbv beta iota. unfold assert_token, cur_t, cur. rewrite A2. simpl. reflexivity.
+  - (* map literal *)
+    simpl spine. simpl plus. rewrite parse_expr_S.
+    simpl in Hr. norm_app Hr. rewrite (prefix_map E _ _ st _ Hr). unfold parse_map_literal. cbv zeta.
+    set (st0 := push_wss false st).
+    set (r2 := wsl w2 ++ rest0) in *.
+    assert (Hh : is_ws (look0 (render_pairs render pairs wz ++ mk T_RCURLY :: r2)) = false)
+      by (apply render_pairs_head_not_ws; reflexivity).
+    assert (Hr0 : rest st0 = mk T_LCURLY :: wsl w1 ++ (render_pairs render pairs wz ++ mk T_RCURLY :: r2)) by exact Hr.
+    destruct (open_spec st0 _ _ _ Hr0 Hh) as (A1 & B1 & C1).
+    simpl in Hwl, Hat, Hl. cbn [need] in Hk. destruct Hat as [Hfr Hps]. apply Nat.max_lub_iff in Hk as [Hk1 Hk2].
+    rewrite (ml_skip_gen k (advance st0)).
+    2:{ lia. }
+    2:{ unfold cur_t, cur. rewrite A1. apply pairs_head_nonblank. }
+    set (st1 := advance_if_ws (advance st0)) in *.
+    assert (W1 : is_wss st1 = false) by (apply (is_wss_pushed st _ false B1)).
+    assert (Hk1' : S (List.length pairs) < k) by lia.
+    rewrite (map_pairs_spec E NT k pairs IHpairs k st1 wz r2 [] Hwl Hps Hfr Hl A1 W1 Hk1' Hk2).
+    assert (HC : Forall (fun p => consume_stmt E (snd p)) pairs) by (apply Forall_forall; intros a _; apply consume_spec).
+    destruct (consume_pairs_spec E (atoms_ok E) pairs HC st1 wz (mk T_RCURLY :: r2) A1 W1) as (A2 & B2 & C2); auto.
+    set (st2 := consume_pairs (consume E) pairs st1) in *.
+    cbn [rev app].
+    cbv beta iota. unfold assert_token, cur_t, cur. rewrite A2. simpl. reflexivity.
 Qed.
 
 (* ================================================================ *)
@@ -1289,14 +2016,35 @@ Qed.
 Lemma ty_size_le t : ty_size t <= List.length (render_ty t).
 Proof. induction t; simpl; lia. Qed.
 
+Lemma seq_fuel args wz : Forall (fun l => spine l + need l + 2 <= 2 * List.length (render l)) args ->
+  List.length args <= List.length (render_seq render args wz) /\
+  max_over (fun a => S (spine a + Nat.max 1 (need a))) args <= 2 * List.length (render_seq render args wz) + 2.
+Proof.
+  induction 1 as [|a t Ha Ht [IH1 IH2]].
+  - rewrite render_seq_nil. simpl. lia.
+  - rewrite render_seq_cons, max_over_cons, !app_length. simpl List.length. lia.
+Qed.
+
+Lemma pairs_fuel ps wz : Forall (fun p => spine (snd p) + need (snd p) + 2 <= 2 * List.length (render (snd p))) ps ->
+  List.length ps <= List.length (render_pairs render ps wz) /\
+  max_over (fun p => S (spine (snd p) + Nat.max 1 (need (snd p)))) ps <= 2 * List.length (render_pairs render ps wz) + 2.
+Proof.
+  induction 1 as [|[[k wc] v] t Hv Ht [IH1 IH2]].
+  - rewrite render_pairs_nil. simpl. lia.
+  - rewrite render_pairs_cons, max_over_cons. cbn [snd] in *. simpl List.length. rewrite !app_length. simpl List.length. lia.
+Qed.
+
 (* enough fuel: the model's entry point runs with 2 * (number of tokens) + 10 *)
 Lemma fuel_bound l : spine l + need l + 2 <= 2 * List.length (render l).
 Proof.
-  induction l as [a ws|w1 e w2 IH|o e IH|o a ws b IHa IHb|e w1 i w2 IHe IHi|e w1 s w2 t w3 IHe IHs IHt|e k w IHe|e w1 t w2 w3 IHe]
+  induction l as [a ws|w1 e w2 IH|o e IH|o a ws b IHa IHb|e w1 i w2 IHe IHi|e w1 s w2 t w3 IHe IHs IHt|e k w IHe|e w1 t w2 w3 IHe|w1 f args wz w2 IHargs|w1 args wz w2 IHargs|w1 pairs wz w2 IHpairs]
     using lexp_ind'; cbn [spine need render];
     try pose proof (ty_size_le t);
     repeat (rewrite app_length || (progress simpl List.length)); try lia.
-  destruct s as [x|], t as [y|]; simpl in IHs, IHt; simpl List.length; lia.
+  - destruct s as [x|], t as [y|]; simpl in IHs, IHt; simpl List.length; lia.
+  - destruct (seq_fuel args wz IHargs) as [H1 H2]. lia.
+  - destruct (seq_fuel args wz IHargs) as [H1 H2]. lia.
+  - destruct (pairs_fuel pairs wz IHpairs) as [H1 H2]. lia.
 Qed.
 
 (* The guard that excludes exactly the class on which parseSlice is defective:
@@ -1319,7 +2067,7 @@ Proof.
   intros NT HL Hat Hlo Hr Ht Hf Hg Hstop Hfuel.
   destruct (Lay_wl _ _ HL) as [Hwl _].
   pose proof (fuel_bound l) as Hb.
-  destruct (consume_spec E l st rest0 Hr Hlo Ht Hf Hg) as (A & B & C & _).
+  destruct (consume_spec E l st rest0 Hr Hlo Ht Hf Hg Hat) as (A & B & C & _).
   split; [|auto].
   assert (Hex : exists k, fuel = S (spine l + S k) /\ need l <= S k) by (exists (fuel - spine l - 2); lia).
   destruct Hex as (k & -> & Hk).
@@ -1349,9 +2097,13 @@ Qed.
 (* the tree depends on the derivation only, not on its layout *)
 Lemma tree_of_erase l : tree_of l = stree (erase l).
 Proof.
-  induction l as [a ws|w1 e w2 IH|o e IH|o a ws b IHa IHb|e w1 i w2 IHe IHi|e w1 s w2 t w3 IHe IHs IHt|e k w IHe|e w1 t w2 w3 IHe]
+  induction l as [a ws|w1 e w2 IH|o e IH|o a ws b IHa IHb|e w1 i w2 IHe IHi|e w1 s w2 t w3 IHe IHs IHt|e k w IHe|e w1 t w2 w3 IHe|w1 f args wz w2 IHargs|w1 args wz w2 IHargs|w1 pairs wz w2 IHpairs]
     using lexp_ind'; simpl; try congruence.
-  destruct s, t; simpl in *; congruence.
+  - destruct s, t; simpl in *; congruence.
+  - f_equal. f_equal. rewrite map_map. induction IHargs as [|a t Ha _ IH]; simpl; [reflexivity|]. rewrite Ha, IH. reflexivity.
+  - f_equal. rewrite map_map. induction IHargs as [|a t Ha _ IH]; simpl; [reflexivity|]. rewrite Ha, IH. reflexivity.
+  - f_equal. rewrite map_map. induction IHpairs as [|[[k wc] v] t Hv _ IH]; simpl; [reflexivity|].
+    simpl in Hv. rewrite Hv, IH. reflexivity.
 Qed.
 
 Theorem layout_irrelevant E l1 l2 st1 st2 r1 r2 fuel1 fuel2 :
@@ -1501,6 +2253,49 @@ Proof.
   - exists (consume E l s2). rewrite P. repeat split; auto.
     + unfold is_at_eol, cur_t, cur. rewrite Q. reflexivity.
     + rewrite S, C2, C1. reflexivity.
+Qed.
+
+(* a call statement  f a1 ... an NL  (parseTopLevelExpr at statement level, no parentheses): the
+   arguments are derivations of the grammar, separated by whitespace, each rendered tight *)
+Theorem call_stmt_parses E f args wz fuel :
+  no_tyerr E -> func_of E f = Some false -> arity_wrong E f (List.length args) = false ->
+  (forall a, In a args -> Lay 0 a) -> args_ok E (atoms_ok E) wz args ->
+  forallb (fun a => layout_ok a && tight_ok a) args = true ->
+  let toks := ident_tok f :: wsl (seq_flag args wz) ++ render_seq render args wz ++ [mk T_NL] in
+  2 * List.length toks <= fuel ->
+  exists st', parse_stmt_expr E fuel 0 toks = Some (Some (TCall f (map tree_of args)), st') /\
+              rest st' = [mk T_NL] /\ is_at_eol st' = true /\ errs st' = [].
+Proof.
+  intros NT Hfn Har HL Hargs Hl toks Hfu. unfold parse_stmt_expr. simpl Nat.iter.
+  set (s0 := init_state toks).
+  assert (W0 : is_wss s0 = false) by reflexivity.
+  assert (R0 : rest s0 = ident_tok f :: wsl (seq_flag args wz) ++ (render_seq render args wz ++ [mk T_NL])) by reflexivity.
+  rewrite (toplevel_call E _ _ s0 f _ R0 Hfn). unfold parse_func_call.
+  replace (tlit (cur s0)) with f by reflexivity.
+  cbn [orb negb].
+  assert (Hh : is_ws (look0 (render_seq render args wz ++ [mk T_NL])) = false) by (apply render_seq_head_not_ws; reflexivity).
+  destruct (advance_tok s0 _ _ _ R0) as (A1 & B1 & C1 & _).
+  { rewrite W0. discriminate. } { intros _. exact Hh. }
+  set (s1 := advance s0) in *.
+  assert (W1 : is_wss s1 = false) by (rewrite (is_wss_eq _ _ B1); exact W0).
+  assert (HP : Forall (pratt_stmt E) args) by (apply Forall_forall; intros a _; apply pratt_general; exact NT).
+  assert (HC : Forall (consume_stmt E) args) by (apply Forall_forall; intros a _; apply consume_spec).
+  assert (Hwl : allP wl args) by (apply allP_In; intros a Ha; exact (proj1 (Lay_wl _ _ (HL a Ha)))).
+  assert (HB : Forall (fun l => spine l + need l + 2 <= 2 * List.length (render l)) args)
+    by (apply Forall_forall; intros a _; apply fuel_bound).
+  destruct (seq_fuel args wz HB) as [F1 F2].
+  assert (Hlen : List.length toks = S (List.length (wsl (seq_flag args wz)) + (List.length (render_seq render args wz) + 1))).
+  { unfold toks. simpl List.length. rewrite !app_length. reflexivity. }
+  assert (Hf1 : List.length args < fuel) by lia.
+  assert (Hf2 : max_over (fun a => S (spine a + Nat.max 1 (need a))) args <= fuel) by lia.
+  rewrite (expr_list_spec E NT fuel args HP fuel s1 wz (mk T_NL) [] [] (or_intror eq_refl) Hwl Hargs Hl A1 W1 Hf1 Hf2).
+  destruct (consume_args_spec E (atoms_ok E) args HC s1 wz [mk T_NL] A1) as (A2 & B2 & C2); auto.
+  change (rev [] ++ map tree_of args) with (map tree_of args).
+  cbv beta iota zeta. rewrite map_length, Har. rewrite (tyerr_false E) by exact NT.
+  eexists. split; [reflexivity|]. repeat split.
+  - exact A2.
+  - unfold is_at_eol, cur_t, cur. rewrite A2. reflexivity.
+  - rewrite C2, C1. reflexivity.
 Qed.
 
 (* ================================================================ *)
